@@ -4,6 +4,8 @@ From Spec Require Import RegexSpec.
 From Proofs Require Import RegexTotal RegexRoundTrip.
 From Spec Require Sem.
 From Proofs Require ResolveShape UnrollSem TotalRec.
+From Spec Require Lang RegexLang.
+From Proofs Require LangSound RegexLangSound.
 From Coq Require Import Arith.
 Local Open Scope N_scope.
 
@@ -38,6 +40,41 @@ Theorem C14_quantifier_means_bounded_repetition :
   forall s l, Sem.outs text start defs r s l <-> Sem.outs text start defs (XLoop 0 mn mx fw [] c) s l.
 Proof. exact ResolveShape.quantifier_meaning_lemma. Qed.
 Print Assumptions C14_quantifier_means_bounded_repetition.
+
+(* The semantic side.  [RegexLang.rd_lang] is the textbook language of a regular expression: a character
+   stands for itself, `.` for any byte but newline, \d \s and bracket classes for one byte of the class,
+   a group for the language of its body, x{m,n} (and * + ?) for m..n words of x in a row, a|b for the
+   union, juxtaposition for concatenation.  For every regular expression proper ([reg_disj]: no anchors,
+   no back-references, ASCII, quantified atoms that cannot match the empty string - the property's
+   proviso - and bounds m <= n), whatever the generator resolves from its denotation - unrolled copies,
+   capture groups and all - is a pattern in the scope of the language theorem of C01 and denotes exactly
+   that language. *)
+Theorem C14_regex_denotes_its_language :
+  forall defs d, RegexLang.reg_disj d ->
+  forall g off gs r gs', resolve_exprs (fst (tr_disj d g)) off gs = GOk (r, gs') ->
+  Lang.pure r /\ forall w, Lang.lang defs r w <-> RegexLang.rd_lang d w.
+Proof. exact (fun defs => proj2 (proj2 (proj2 (RegexLangSound.regex_lang_mut defs)))). Qed.
+Print Assumptions C14_regex_denotes_its_language.
+
+(* End to end in the specification: write the expression down, parse the text, resolve the tree; then at
+   every state of every text the outcomes of the resolved pattern end exactly at the p' for which
+   text[p:p'] is a word of the expression.  (C01_attempt: the VM reports the first of these outcomes in
+   priority order; which one is first - leftmost alternative, greedy longest, lazy shortest - is the order
+   of [outs], compared with a conventional engine by the differential check.) *)
+Theorem C14_regex_finds_its_language :
+  forall text start defs, (forall t b p, defs t = Some (b, p) -> p = PNil /\ Lang.pure b) ->
+  forall d g e g' off gs r gs', wf_disj d [] -> RegexLang.reg_disj d ->
+  parse_regexp (show_disj d) g = POk (e, g') -> resolve_expr e off gs = GOk (r, gs') ->
+  forall s l, Sem.outs text start defs r s l -> (fst s <= length text)%nat ->
+  forall p', (exists env, In (p', env) l) <->
+             (fst s <= p')%nat /\ (p' <= length text)%nat /\ RegexLang.rd_lang d (sub text (fst s) p').
+Proof.
+  intros text start defs Hdefs d g e g' off gs r gs' Hwf Hreg Hparse Hres s l Ho Hs p'.
+  rewrite (regex_roundtrip_lemma d g Hwf) in Hparse. inversion Hparse; subst e g'. cbn [resolve_expr resolve_lit] in Hres.
+  destruct (proj2 (proj2 (proj2 (RegexLangSound.regex_lang_mut defs))) d Hreg g off gs r gs' Hres) as [Hp Hw].
+  rewrite (LangSound.outs_lang_lemma text start defs Hdefs r s l Ho Hp Hs p'). rewrite Hw. reflexivity.
+Qed.
+Print Assumptions C14_regex_finds_its_language.
 
 (* every other byte string between @/ and / gives a tree or an error, never a panic or a hang *)
 Theorem C14_regex_parser_total : forall re g, parse_regexp re g <> PCrash /\ parse_regexp re g <> PFuel.
@@ -78,4 +115,33 @@ Proof.
   - intros s l H. pose proof (TotalRec.literal_consumes text start defs false false [97] s l H) as Hc.
     eapply Forall_impl; [|exact Hc]. cbn. intros q Hq. apply Nat.neq_sym. apply Nat.lt_neq. exact Hq.
   - intros s. eexists. constructor.
+Qed.
+
+(* non-vacuity of the language theorems:  (a|b)+c  is well formed and regular, and "abc" is one of its words *)
+Definition ex_reg : rdis :=
+  DCons (POne (RQ (RGroup GNum (DCons (PAlt (RQ (RChar 97) None) (POne (RQ (RChar 98) None))) DNil)) (Some (QPlus, false))))
+        (DCons (POne (RQ (RChar 99) None)) DNil).
+
+Example C14_language_witness :
+  wf_disj ex_reg [] /\ RegexLang.reg_disj ex_reg /\ RegexLang.rd_lang ex_reg [97; 98; 99] /\
+  exists r g', resolve_exprs (fst (tr_disj ex_reg 0)) 0 init_gstate = GOk (r, g').
+Proof.
+  assert (Ha : RegexLang.ra_lang (RChar 97) [97]) by constructor.
+  assert (Hb : RegexLang.ra_lang (RChar 98) [98]) by constructor.
+  set (grp := RGroup GNum (DCons (PAlt (RQ (RChar 97) None) (POne (RQ (RChar 98) None))) DNil)).
+  assert (Hga : RegexLang.ra_lang grp [97]).
+  { constructor. change [97] with ([97] ++ []). constructor; [|constructor]. apply RegexLang.rl_alt_l. constructor. exact Ha. }
+  assert (Hgb : RegexLang.ra_lang grp [98]).
+  { constructor. change [98] with ([98] ++ []). constructor; [|constructor]. apply RegexLang.rl_alt_r. constructor. constructor. exact Hb. }
+  split; [cbn; repeat split; try reflexivity; try exact I|]. split; [|split].
+  - cbn [RegexLang.reg_disj RegexLang.reg_pat RegexLang.reg_lit RegexLang.reg_atom ex_reg]. repeat split; try (apply N.ltb_lt; reflexivity).
+    + intros w H. inversion H as [| | | | |? ? ? Hd]; subst. inversion Hd as [|? ? u v Hp Hn]; subst. inversion Hn; subst. rewrite app_nil_r.
+      inversion Hp as [|? ? ? Hl|? ? ? Hr]; subst.
+      * inversion Hl as [? ? Hx|]; subst. inversion Hx; discriminate.
+      * inversion Hr as [? ? Hl| |]; subst. inversion Hl as [? ? Hx|]; subst. inversion Hx; discriminate.
+    + exists 1%nat, (-1)%Z. split; [reflexivity|left; reflexivity].
+  - change [97; 98; 99] with (concat [[97]; [98]] ++ ([99] ++ [])). constructor; [|constructor; [constructor; constructor; constructor|constructor]].
+    constructor. apply (RegexLang.rl_quant grp QPlus false 1 (-1) [[97]; [98]]); [reflexivity|cbn; lia|reflexivity|].
+    constructor; [exact Hga|constructor; [exact Hgb|constructor]].
+  - vm_compute. eexists _, _. reflexivity.
 Qed.
